@@ -49,6 +49,7 @@ ENone         == [k |-> "none"]
 Op(op, T, i, j, E) == [op |-> op, T |-> T, i |-> i, j |-> j, E |-> E]
 OAssign(x, E)   == Op("assign", TVar(x), 0, 0, E)         \* x = E
 OGet(T, i)      == Op("get", T, i, 0, ENone)              \* println(T[i])
+OProbe(T, i)    == Op("probe", T, i, 0, ENone)            \* { let pk = i; T[pk]; println("probed") }: the element is read and discarded
 OSet(T, i, E)   == Op("set", T, i, 0, E)                  \* T[i] = E
 OPush(T, E)     == Op("push", T, 0, 0, E)
 OPop(T)         == Op("pop", T, 0, 0, ENone)              \* println(T.pop())
@@ -160,6 +161,7 @@ Outcomes(c, o) ==
         l == c.store[a]
     IN
     CASE o.op = "get"  -> IF InR(l, o.i) THEN Res(c, ShowV(c, l[o.i + 1]) \o "\n") ELSE Err(c, "oob", "index")
+      [] o.op = "probe" -> IF InR(l, o.i) THEN Res(c, "probed\n") ELSE Err(c, "oob", "index")
       [] o.op = "set"  -> LET e == EvalE(c, o.E) IN
                           IF InR(l, o.i) THEN Res(SetL(e.c, a, [l EXCEPT ![o.i + 1] = e.v]), "") ELSE Err(c, "oob", "index")
       [] o.op = "push" -> LET e == EvalE(c, o.E) IN Res(SetL(e.c, a, Append(l, e.v)), "")
@@ -212,6 +214,7 @@ RE(E) ==
 ROp(o) ==
   CASE o.op = "assign"   -> o.T.x \o " = " \o RE(o.E)
     [] o.op = "get"      -> "println(" \o RT(o.T) \o "[" \o ToString(o.i) \o "])"
+    [] o.op = "probe"    -> "if true {\nlet pk = " \o ToString(o.i) \o "\n" \o RT(o.T) \o "[pk]\nprintln(\"probed\")\n}"
     [] o.op = "set"      -> RT(o.T) \o "[" \o ToString(o.i) \o "] = " \o RE(o.E)
     [] o.op = "push"     -> RT(o.T) \o ".push(" \o RE(o.E) \o ")"
     [] o.op = "pop"      -> "println(" \o RT(o.T) \o ".pop())"
